@@ -4,7 +4,8 @@
      mode   "Strict" | "Permissive" | "Anonymous" | "None"
      from   "absent" | "empty" | "garbage" | "A" | "B"      (A, B = peer ids of two key pairs of one key type)
      seqno  "absent" | "empty" | "4" | "8"                  (length in bytes)
-     sigby  "absent" | "garbage" | "A" | "B"                (whose key produced the signature field)
+     sigby  "absent" | "garbage" | "empty" | "A" | "B"      (whose key produced the signature field; "empty" = the
+                                                             field is present with zero bytes: still a present signature)
      key    "absent" | "garbage" | "A" | "B"                (the explicit public key field)
      mut    "none" | "from_swap" | "data_flip" | "data_drop" | "seqno_flip" | "seqno_drop" |
             "topic_change" | "sig_flip"
